@@ -104,7 +104,7 @@ theorem sim_release {cfg : Cfg} {d d' : RState} {m : Mon} {o : Obs} (hs : Sim cf
         | none => rw [hf] at hrel0; exact hrel0
         | some a => rw [hf] at hrel0; exact hrel0.toERelPre
       · rw [hreq]; rfl
-      · exact chkLog_nil _ _ _
+      · exact chkLogOp_nil _ _ _ _
       · simp [chkNoId, hreq]
       · rfl
       · intro h hh; cases hh
@@ -120,6 +120,7 @@ theorem sim_release {cfg : Cfg} {d d' : RState} {m : Mon} {o : Obs} (hs : Sim cf
       cases hpk : p.kind with
       | del j f => rw [hpk] at hpred; cases hpred
       | cls j => rw [hpk] at hpred; cases hpred
+      | upl j n usr => rw [hpk] at hpred; cases hpred
       | slow sid slot =>
         rw [hpk] at hpred hshape
         have hslot : slot = k := by simpa using hpred
@@ -157,7 +158,7 @@ theorem sim_release {cfg : Cfg} {d d' : RState} {m : Mon} {o : Obs} (hs : Sim cf
           have hGe : (settleE d.st.now d.st.closeFails ∘ (tryF (endPost d.st.now d.st.cfg.timeout false) ∘ tryF (handlerDoneF false))) e =
               settleE d.st.now d.st.closeFails (endE d.st.now cfg.timeout (hdoneE e)) := by
             show settleE _ _ (tryF _ (tryF _ e)) = _
-            rw [hdone_eq hr (by rw [hk.busy]; omega), endPost_eq (e := hdoneE e) (by show e.posts ≠ 0; rw [hk.posts]; exact hns) hk.creating, hs.cfg_eq]
+            rw [hdone_eq hr (by rw [hk.busy]; omega), endPost_eq (e := hdoneE e) (by show e.posts ≠ 0; rw [hk.posts]; omega) hk.creating, hs.cfg_eq]
           have hq := eokq_release hk hg hr hns
           have hmo : modelOp d (.release slot) = some { st := doL (doL d.st (.handlerDone i false)) (.postEnd (some i) false), status := .ok, hdr := none, hang := false, done := [(p.tag, 200)], log := [], pend := d.pend.filter (fun q => q.tag != p.tag), nslow := d.nslow, nasync := d.nasync, released := d.released ++ [slot] } := by
             simp only [modelOp]; rw [if_neg hno, hfind]; simp only [hpk]
@@ -223,7 +224,7 @@ theorem sim_release {cfg : Cfg} {d d' : RState} {m : Mon} {o : Obs} (hs : Sim cf
             exact rel_endE (rel_hdoneE hrel.toERelPre) (fun hl => (hrel.cnt hl).2) hk.posts
               (fun ht => hg.refs_posts ht) (fun h => hk.tmr h) hns
           · rw [hreq]; rfl
-          · exact chkLog_nil _ _ _
+          · exact chkLogOp_nil _ _ _ _
           · simp [chkNoId, hreq]
           · rfl
           · intro h hh; cases hh
@@ -309,7 +310,7 @@ theorem sim_release {cfg : Cfg} {d d' : RState} {m : Mon} {o : Obs} (hs : Sim cf
           apply relpre_settle _ _ hq.notDue
           exact rel_runDec (rel_hdoneE hrel.toERelPre)
         · rw [hreq]; rfl
-        · exact chkLog_nil _ _ _
+        · exact chkLogOp_nil _ _ _ _
         · simp [chkNoId, hreq]
         · rfl
         · intro h hh; cases hh
@@ -330,6 +331,7 @@ theorem pendOkW_append_run {P : List Pend} {ns na : Nat} {rel : List Nat} {next 
     | run a b => rw [hqk] at this; rw [this.1] at hqt; cases hqt; exact hs (by simp [slotOf, hqk])
     | del j f => rw [hqk] at this; obtain ⟨n, hn, _⟩ := this; rw [hn] at hqt; cases hqt
     | cls j => rw [hqk] at this; obtain ⟨n, hn, _⟩ := this; rw [hn] at hqt; cases hqt
+    | upl a b c => rw [hqk] at this; rw [this.1] at hqt; cases hqt
   refine ⟨?_, ?_, ?_, ?_, ?_, h.relLe⟩
   · rw [List.map_append, List.nodup_append]
     refine ⟨h.tags, by simp, ?_⟩
@@ -381,6 +383,7 @@ theorem sim_abandon {cfg : Cfg} {d d' : RState} {m : Mon} {o : Obs} (hs : Sim cf
     | run j s => rw [hpk] at hshape; rw [hshape.1] at hptag; cases hptag
     | del j f => rw [hpk] at hshape; obtain ⟨⟨n, hn, _⟩, _⟩ := hshape; rw [hn] at hptag; cases hptag
     | cls j => rw [hpk] at hshape; obtain ⟨⟨n, hn, _⟩, _⟩ := hshape; rw [hn] at hptag; cases hptag
+    | upl j n usr => rw [hpk] at hshape; rw [hshape.1] at hptag; cases hptag
     | slow sid slot =>
       rw [hpk] at hshape
       have hslot : slot = k := by have := hshape.1; rw [hptag] at this; cases this; rfl
@@ -407,7 +410,7 @@ theorem sim_abandon {cfg : Cfg} {d d' : RState} {m : Mon} {o : Obs} (hs : Sim cf
         have hGe : (settleE d.st.now d.st.closeFails ∘ tryF (endPost d.st.now d.st.cfg.timeout false)) e =
             settleE d.st.now d.st.closeFails (endE d.st.now cfg.timeout e) := by
           show settleE _ _ (tryF _ e) = _
-          rw [endPost_eq (by rw [hk.posts]; exact hns) hk.creating, hs.cfg_eq]
+          rw [endPost_eq (by rw [hk.posts]; omega) hk.creating, hs.cfg_eq]
         have hq := eokq_abandon hk hg hr hns
         have hmo : modelOp d (.abandon slot) = some { st := doL d.st (.postEnd (some i) false), status := .ok, hdr := none, hang := false, done := [(Tag.p slot, 200)], log := [], pend := d.pend.filter (fun q => q.tag != Tag.p slot) ++ [Pend.mk (.r slot) (.run i slot)], nslow := d.nslow, nasync := d.nasync, released := d.released } := by
           simp only [modelOp, hfind, hpk]
@@ -489,7 +492,7 @@ theorem sim_abandon {cfg : Cfg} {d d' : RState} {m : Mon} {o : Obs} (hs : Sim cf
           have hri := rel_runInc hrel.toERelPre
           exact rel_endE hri (fun hl => (hri.cnt hl).2) hk.posts (fun ht => hg.refs_posts ht) (fun h => hk.tmr h) hns
         · rw [hreq]; rfl
-        · exact chkLog_nil _ _ _
+        · exact chkLogOp_nil _ _ _ _
         · simp [chkNoId, hreq]
         · rfl
         · intro h hh; cases hh
